@@ -46,6 +46,7 @@ import (
 
 	"github.com/ava-labs/hypersdk/event"
 	"github.com/ava-labs/hypersdk/internal/cache"
+	"github.com/ava-labs/hypersdk/internal/verifhook"
 	"github.com/ava-labs/hypersdk/utils"
 
 	avacache "github.com/ava-labs/avalanchego/cache"
@@ -364,6 +365,7 @@ func (v *VM[I, O, A]) startAsyncAccepter(ctx context.Context) {
 		// Perform synchronous work of accepting blocks on a separate thread to reduce blocking the
 		// consensus engine's main thread.
 		for acceptedBlk := range v.acceptedQueue {
+			verifhook.YieldK("snow.accepter.dequeue", acceptedBlk.Input.GetHeight())
 			if err := acceptedBlk.processAccept(ctx); err != nil {
 				panic(err)
 			}
@@ -488,6 +490,7 @@ func (v *VM[I, O, A]) BuildBlock(ctx context.Context) (*StatefulBlock[I, O, A], 
 }
 
 func (v *VM[I, O, A]) buildBlock(ctx context.Context, blockCtx *block.Context) (*StatefulBlock[I, O, A], error) {
+	verifhook.AwaitLock("snow.chainLock.buildBlock", 0, &v.chainLock)
 	v.chainLock.Lock()
 	defer v.chainLock.Unlock()
 
